@@ -157,8 +157,11 @@ uint64_t rtosc_float2secfracs(float secfracsf)
        <=> secfracs = base_without_comma * 2^(32-exp-4*hexdigits_after_comma)
     */
     int lshift = 32-exp-(hexdigits_after_comma<<2);
-    assert(lshift > 0);
-    secfracs <<= lshift;
+    // small fractions like 0x1.8p-31 have their digits below 2^-32's place
+    if(lshift >= 0)
+        secfracs <<= lshift;
+    else
+        secfracs >>= -lshift;
     assert((secfracs & 0xFFFFFFFF) == secfracs);
 
     return secfracs;
